@@ -171,6 +171,8 @@ theorem hat5_eq_hatRows (t : SGal3T ℝ) : hat5 t = matOfRows 5 t.hatRows := by
 /-- `fillE` in its closed-form branch, as a polynomial in `hat θ` -/
 theorem fillE_generic (so3 : SO3T ℝ)
     (hE : ¬ (so3.v.x * so3.v.x + (so3.v.y * so3.v.y + so3.v.z * so3.v.z)) *
+        (so3.v.x * so3.v.x + (so3.v.y * so3.v.y + so3.v.z * so3.v.z)) *
+        (so3.v.x * so3.v.x + (so3.v.y * so3.v.y + so3.v.z * so3.v.z)) *
         (so3.v.x * so3.v.x + (so3.v.y * so3.v.y + so3.v.z * so3.v.z)) < realEps) :
     (fillE so3).toMatrix =
       (1 / 2 : ℝ) • 1 +
@@ -192,11 +194,13 @@ theorem fillE_generic (so3 : SO3T ℝ)
   fin_cases i <;> fin_cases j <;> simp [M3.toMatrix, Matrix.one_apply]
 
 
-/-- **SGal(3), closed-form branches** (`θ² > eps` and `θ⁴ ≥ eps`): the 5×5 matrix of `exp t` —
+/-- **SGal(3), closed-form branches** (`θ² > eps` and `θ⁸ ≥ eps`): the 5×5 matrix of `exp t` —
     rotation `R(exp θ)`, velocity `Jl ν`, position `Jl ρ + E (ι ν)`, time `ι` — is the exponential
     series of `hat t`. -/
 theorem exp_series (t : SGal3T ℝ) (h : realEps < t.ang.x * t.ang.x + (t.ang.y * t.ang.y + t.ang.z * t.ang.z))
     (hE : ¬ (t.ang.x * t.ang.x + (t.ang.y * t.ang.y + t.ang.z * t.ang.z)) *
+        (t.ang.x * t.ang.x + (t.ang.y * t.ang.y + t.ang.z * t.ang.z)) *
+        (t.ang.x * t.ang.x + (t.ang.y * t.ang.y + t.ang.z * t.ang.z)) *
         (t.ang.x * t.ang.x + (t.ang.y * t.ang.y + t.ang.z * t.ang.z)) < realEps) :
     HasExpSum (hat5 t)
       (hom5M (Quat.toRot (SO3T.expRaw t.asSO3)).toMatrix (t.asSO3.ljac.mulVec t.lin2).toVec
@@ -263,6 +267,8 @@ theorem SE23T.exp_eq_matrix_exp (t : SE23T ℝ) (h : realEps < t.ang.x * t.ang.x
 
 theorem SGal3T.exp_eq_matrix_exp (t : SGal3T ℝ) (h : realEps < t.ang.x * t.ang.x + (t.ang.y * t.ang.y + t.ang.z * t.ang.z))
     (hE : ¬ (t.ang.x * t.ang.x + (t.ang.y * t.ang.y + t.ang.z * t.ang.z)) *
+        (t.ang.x * t.ang.x + (t.ang.y * t.ang.y + t.ang.z * t.ang.z)) *
+        (t.ang.x * t.ang.x + (t.ang.y * t.ang.y + t.ang.z * t.ang.z)) *
         (t.ang.x * t.ang.x + (t.ang.y * t.ang.y + t.ang.z * t.ang.z)) < realEps) :
     NormedSpace.exp (SGal3T.hat5 t) =
       hom5M (Quat.toRot (SO3T.expRaw t.asSO3)).toMatrix (t.asSO3.ljac.mulVec t.lin2).toVec
